@@ -162,3 +162,163 @@ func (r *Recorder) GetRangeByHeight(ctx context.Context, from *vhdr.Header, to u
 	r.log(fmt.Sprintf("GetRangeByHeight:%d-%d", from.H, to), to-from.H-1)
 	return r.Store.GetRangeByHeight(ctx, from, to)
 }
+
+// ---- scripted peers ---------------------------------------------------------------------------
+
+// Reply is what a scripted peer does with one request.
+type Reply struct {
+	Kind    string         // ok | notfound | empty | reset | hang | garbage | status | truncated
+	Headers []*vhdr.Header // for ok / status
+	Raw     []byte         // for garbage
+	Status  int32          // for status
+}
+
+// Scripted is a peer speaking header-ex with scripted answers. Every request is stamped with a global
+// sequence number; an answer is written only after the harness released it (Gate) when gating is on.
+type Scripted struct {
+	Host   host.Host
+	mu     sync.Mutex
+	Script func(n int, req *p2p_pb.HeaderRequest) Reply // n = index of the request at this peer
+	nreq   int
+	Gated  bool
+	gates  []chan struct{}
+	Log    []ReqLog
+	done   []chan struct{}
+}
+
+type ReqLog struct {
+	Seq    uint64
+	Origin uint64
+	Amount uint64
+	Hash   []byte
+}
+
+var seq struct {
+	mu sync.Mutex
+	n  uint64
+}
+
+func nextSeq() uint64 { seq.mu.Lock(); defer seq.mu.Unlock(); seq.n++; return seq.n }
+
+func NewScripted(h host.Host) *Scripted {
+	p := &Scripted{Host: h}
+	h.SetStreamHandler(ProtocolID(), p.handle)
+	return p
+}
+
+// Reset clears the script state between cases.
+func (p *Scripted) Reset(gated bool, script func(n int, req *p2p_pb.HeaderRequest) Reply) {
+	p.mu.Lock()
+	for _, g := range p.gates {
+		select {
+		case <-g:
+		default:
+			close(g)
+		}
+	}
+	p.Script, p.Gated, p.nreq, p.gates, p.Log, p.done = script, gated, 0, nil, nil, nil
+	p.mu.Unlock()
+}
+
+// Release lets the i-th request of this peer be answered and waits until the answer is written.
+func (p *Scripted) Release(i int, wait time.Duration) bool {
+	deadline := time.Now().Add(wait)
+	for {
+		p.mu.Lock()
+		if i < len(p.gates) {
+			g, d := p.gates[i], p.done[i]
+			p.mu.Unlock()
+			select {
+			case <-g:
+			default:
+				close(g)
+			}
+			select {
+			case <-d:
+				return true
+			case <-time.After(time.Until(deadline)):
+				return false
+			}
+		}
+		p.mu.Unlock()
+		if time.Now().After(deadline) {
+			return false
+		}
+		time.Sleep(200 * time.Microsecond)
+	}
+}
+
+func (p *Scripted) Requests() []ReqLog {
+	p.mu.Lock()
+	defer p.mu.Unlock()
+	return append([]ReqLog(nil), p.Log...)
+}
+
+func (p *Scripted) handle(s network.Stream) {
+	_ = s.SetDeadline(time.Now().Add(5 * time.Second))
+	var req p2p_pb.HeaderRequest
+	if _, err := serde.Read(s, &req); err != nil {
+		s.Reset() //nolint:errcheck
+		return
+	}
+	p.mu.Lock()
+	n := p.nreq
+	p.nreq++
+	gate, done := make(chan struct{}), make(chan struct{})
+	p.gates = append(p.gates, gate)
+	p.done = append(p.done, done)
+	p.Log = append(p.Log, ReqLog{Seq: nextSeq(), Origin: req.GetOrigin(), Amount: req.Amount, Hash: req.GetHash()})
+	script, gated := p.Script, p.Gated
+	p.mu.Unlock()
+	defer close(done)
+	if gated {
+		select {
+		case <-gate:
+		case <-time.After(5 * time.Second):
+			s.Reset() //nolint:errcheck
+			return
+		}
+	}
+	var r Reply
+	if script != nil {
+		r = script(n, &req)
+	} else {
+		r = Reply{Kind: "notfound"}
+	}
+	switch r.Kind {
+	case "ok", "status":
+		code := p2p_pb.StatusCode_OK
+		if r.Kind == "status" {
+			code = p2p_pb.StatusCode(r.Status)
+		}
+		for _, h := range r.Headers {
+			var body []byte
+			if h != nil {
+				body, _ = h.MarshalBinary()
+			}
+			if _, err := serde.Write(s, &p2p_pb.HeaderResponse{Body: body, StatusCode: code}); err != nil {
+				s.Reset() //nolint:errcheck
+				return
+			}
+		}
+		s.Close()
+	case "notfound":
+		_, _ = serde.Write(s, &p2p_pb.HeaderResponse{StatusCode: p2p_pb.StatusCode_NOT_FOUND})
+		s.Close()
+	case "empty":
+		s.Close()
+	case "reset":
+		s.Reset() //nolint:errcheck
+	case "garbage", "truncated":
+		_, _ = s.Write(r.Raw)
+		s.Close()
+	case "hang":
+		// keep the stream open until the other side gives up
+		buf := make([]byte, 1)
+		_ = s.SetDeadline(time.Now().Add(3 * time.Second))
+		_, _ = s.Read(buf)
+		s.Reset() //nolint:errcheck
+	default:
+		s.Reset() //nolint:errcheck
+	}
+}
